@@ -459,6 +459,12 @@ pub fn gen(focus: &str, seed: u64, count: u64) -> Vec<String> {
             let other: Vec<&&str> = same_order.iter().filter(|x| **x != grp.as_str()).collect();
             if other.is_empty() { body } else { format!("{} prev={}", body, other[g.below(other.len() as u64) as usize]) }
         } else { body };
+        // C15 / C04: sites a file or the library can describe but the optimiser never reaches: coordinates outside
+        // [-1/2, 1/2] (the copies must still be wrapped into the one canonical cell)
+        let body = if (focus == "C15" || focus == "C04") && body.contains(" x=") && !body.contains("mode=") && !body.contains("opt=") && g.chance(0.08) {
+            let (nx, ny) = (g.range(-3.2, 3.2), g.range(-3.2, 3.2));
+            body.split(' ').map(|t| if t.starts_with("x=") { format!("x={}", fmt_f(nx)) } else if t.starts_with("y=") { format!("y={}", fmt_f(ny)) } else { t.to_string() }).collect::<Vec<_>>().join(" ")
+        } else { body };
         // C14: shell counts outside the optimiser's usual 0..3: negative (an empty range), and large
         let body = if focus == "C14" && body.contains(" k=") && !body.contains("mode=") && g.chance(0.08) {
             let k = *g.pick(&[-1i64, -1, -2, -7, 7, 25]);
